@@ -89,6 +89,14 @@ def m_owned_new(block_size):
     return h
 
 
+def m_owned_deref(eng, ctx, f, path, args, dty):
+    """&Owned<T> -> &T: the not-yet-shared object itself"""
+    o = args[0]
+    while isinstance(o, Ptr) and o.root[0] != "obj":
+        o = eng.load_ptr(ctx, o)
+    return o
+
+
 def m_get_unchecked(eng, ctx, f, path, args, dty):
     base, idx = args[0], args[1]
     m = re.search(r"impl \[(.*)\]>::get_unchecked", path)
@@ -162,6 +170,7 @@ def bucket_models(block_size):
         r"Shared::is_null$": m_is_null,
         r"Shared::deref$": m_shared_deref,
         r"Owned::new$": m_owned_new(block_size),
+        r"Owned as Deref(Mut)?>::deref(_mut)?$": m_owned_deref,
         r"MaybeUninit::zeroed$": m_zeroed,
         r"MaybeUninit::assume_init$|MaybeUninit::assume_init_ref$|MaybeUninit::as_ptr$": m_ident,
         r"slice::get_unchecked$|^core::slice::get_unchecked$": m_get_unchecked,
